@@ -110,29 +110,69 @@ def big_nets(rng, count=40):
 
 # ------------------------------------------------------------------ histories
 
-def apply_edits(rxns, edits):
-    """The successive reaction lists (insertion order) of a history: step 0 = rxns, step k = after edits[:k]."""
-    cur = [list(r) for r in rxns]
-    out = [[list(r) for r in cur]]
+def _occ(cur):
+    return {x for _, _, l, r in cur for x, _ in l + r}
+
+
+def apply_edits2(rxns, edits, iso0=()):
+    """The successive (reaction list in insertion order, species kept without incidence) of a history:
+    step 0 = the initial network, step k = after edits[:k].  Mirrors CRNHyperGraph.remove_rxn / add_rxn / remove_species
+    (species set: remove_rxn drops the removed reaction's species that lost their last incidence; remove_species with
+    prune_orphans=False keeps the species in H.species)."""
+    cur = [[r[0], r[1], [list(x) for x in r[2]], [list(x) for x in r[3]]] for r in rxns]
+    sp = _occ(cur) | set(iso0)
+
+    def snap():
+        return ([[r[0], r[1], [list(x) for x in r[2]], [list(x) for x in r[3]]] for r in cur], sorted(sp - _occ(cur)))
+
+    def remove(eid):
+        nonlocal cur, sp
+        gone = [r for r in cur if r[0] == eid]
+        cur = [r for r in cur if r[0] != eid]
+        for _, _, l, r in gone:
+            for x, _ in l + r:
+                if x not in _occ(cur):
+                    sp.discard(x)
+
+    out = [snap()]
     for e in edits:
         if e[0] == "del":
-            cur = [r for r in cur if r[0] != e[1]]
-        elif e[0] == "rmsp":                # CRNHyperGraph.remove_species: species dropped from every side, empty reactions removed
-            nxt = []
-            for eid, rule, l, r in cur:
-                l2 = [x for x in l if x[0] != e[1]]
-                r2 = [x for x in r if x[0] != e[1]]
-                if l2 or r2:
-                    nxt.append([eid, rule, l2, r2])
-            cur = nxt
+            remove(e[1])
+        elif e[0] in ("rmsp", "rmsp0"):     # remove_species(s, prune_orphans = (op == "rmsp"))
+            emptied = []
+            for r in cur:
+                r[2] = [x for x in r[2] if x[0] != e[1]]
+                r[3] = [x for x in r[3] if x[0] != e[1]]
+                if not r[2] and not r[3]:
+                    emptied.append(r[0])
+            for eid in emptied:
+                remove(eid)
+            if e[0] == "rmsp":
+                sp.discard(e[1])
+        elif e[0] == "repl":                # remove_rxn(id); add_rxn(..., edge_id=id): same id, other content
+            remove(e[1][0])
+            cur = cur + [[e[1][0], e[1][1], [list(x) for x in e[1][2]], [list(x) for x in e[1][3]]]]
+            sp |= _occ(cur)
+        elif e[0] == "coef":                # H.edges[id].reactants[s] = c   (species already on that side)
+            for r in cur:
+                if r[0] == e[1]:
+                    side = r[2] if e[2] == "l" else r[3]
+                    for x in side:
+                        if x[0] == e[3]:
+                            x[1] = e[4]
         else:
-            cur = cur + [list(e[1])]
-        out.append([list(r) for r in cur])
+            cur = cur + [[e[1][0], e[1][1], [list(x) for x in e[1][2]], [list(x) for x in e[1][3]]]]
+            sp |= _occ(cur)
+        out.append(snap())
     return out
 
 
-def _hist(rxns, edits, style, name=None, kind="history"):
-    d = dict(kind=kind, rxns=rxns, iso=[], view="hyper", edits=edits, style=style)
+def apply_edits(rxns, edits):
+    return [n for n, _ in apply_edits2(rxns, edits)]
+
+
+def _hist(rxns, edits, style, name=None, kind="history", view="hyper"):
+    d = dict(kind=kind, rxns=rxns, iso=[], view=view, edits=edits, style=style)
     if name:
         d["name"] = name
     return d
@@ -241,4 +281,121 @@ def ill_conditioned(rng, count=24, kind="ill-conditioned"):
             sides.append((sides[0][1], sides[0][0]))
         rng.shuffle(sides)
         out.append(dict(kind=kind, rxns=_ids(sides, rng, "gen"), iso=[], view=rng.choice(["hyper", "bip_int"])))
+    return out
+
+
+def same_shape_histories(rng, nrand=40, kind="history-same-shape"):
+    """Histories whose edits keep the set of reaction ids AND the number of species: a reaction replaced under its old id,
+    a coefficient edited in place, remove_species(prune_orphans=False).  A cache validated by ids / counts stays 'valid'."""
+    out = []
+    P = G._parse
+
+    def net(lines):
+        return G.net_from_strings(lines, kind)["rxns"]
+    for style in (0, 1):
+        # cycle A>B>C>A, r_3 replaced by A>C: not weakly reversible any more
+        out.append(_hist(net(["A >> B", "B >> C", "C >> A"]), [["repl", ["r_3", "r", P("A"), P("C")]], ["coef", "r_1", "l", "A", 2]],
+                         style, "same-shape/cycle-r3-reversed", kind))
+        out.append(_hist(net(["A + B >> C", "C >> A + B"]), [["repl", ["r_2", "r", P("C"), P("2 A")]]], style, "same-shape/A+B=C-replace", kind))
+        out.append(_hist(net(["A >> 2 A", "2 A >> 3 A"]), [["coef", "r_2", "r", "A", 1], ["coef", "r_2", "r", "A", 2]], style,
+                         "same-shape/A-2A-3A-coef", kind))        # 2A>3A -> 2A>A -> 2A>2A (null step)
+        out.append(_hist(net(["A + B <> C", "C >> 2 A"]), [["rmsp0", "B"], ["coef", "r_3", "r", "A", 1]], style, "same-shape/orphan-kept", kind))
+        out.append(_hist(net(["A <> B", "B >> C", "C <> D"]), [["repl", ["r_3", "q", P("C"), P("B")]], ["repl", ["r_3", "r", P("B"), P("C")]]],
+                         style, "same-shape/bridge-flipped", kind))
+        for view in ("bip_int", "bip_str"):   # the INPUT is a bipartite graph object whose coefficients are edited in place
+            out.append(_hist(net(["A + B <> C", "C >> 2 A"]), [["coef", "r_3", "r", "A", 1], ["coef", "r_1", "l", "B", 2]], style,
+                             "same-shape/%s-coef" % view, kind, view=view))
+    pool = [(l, r) for l, r in G.alphabet_reactions()]
+    for k in range(nrand):
+        nr = rng.randint(2, 5)
+        sides = [(G._side(l), G._side(r)) for l, r in rng.sample(pool, nr)]
+        rxns = [["r_%d" % (i + 1), rng.choice(G.RULES), l, r] for i, (l, r) in enumerate(sides)]
+        view = rng.choice(["hyper", "hyper", "hyper", "bip_int", "bip_str"])
+        edits = []
+        for j in range(rng.randint(1, 3)):
+            cur, _iso = apply_edits2(rxns, edits)[-1]
+            if not cur:
+                break
+            z = rng.random()
+            tgt = rng.choice(cur)
+            if view != "hyper" or z < 0.4:
+                cands = [(sd, x[0]) for sd, side in (("l", tgt[2]), ("r", tgt[3])) for x in side]
+                if not cands:
+                    continue
+                sd, sp_ = rng.choice(cands)
+                edits.append(["coef", tgt[0], sd, sp_, rng.choice([1, 2, 3, 12])])
+            elif z < 0.8:
+                # replacement over the SAME species set where possible (species count unchanged)
+                present = sorted(_occ(cur))
+                cand = [(l, r) for l, r in pool if {x for x, _ in l + r} <= set(present) | {"A", "B", "C"}]
+                l, r = rng.choice(cand)
+                edits.append(["repl", [tgt[0], rng.choice(G.RULES), G._side(l), G._side(r)]])
+            else:
+                present = sorted(_occ(cur))
+                edits.append(["rmsp0", rng.choice(present)])
+        if edits:
+            out.append(_hist(rxns, edits, rng.choice([0, 1]), None, kind, view=view))
+    return out
+
+
+# ------------------------------------------------------------------ degenerate values, API surface, sizes
+
+def degenerate(rng, kind="degenerate-values"):
+    """Null steps (reactant complex = product complex), empty sides, single species, duplicate reactions, odd labels,
+    very large coefficients, isolated species."""
+    out = []
+    def add(name, rx, iso=(), view="hyper", **kw):
+        rxns = [[eid, rule, [list(x) for x in l], [list(x) for x in r]] for eid, rule, l, r in rx]
+        out.append(dict(kind=kind, name="degenerate/" + name, rxns=rxns, iso=list(iso), view=view, **kw))
+    A, B, C = [["A", 1]], [["B", 1]], [["C", 1]]
+    for view in ("hyper", "bip_int", "bip_str"):
+        add("null-step-only/" + view, [["r_1", "r", A, A]], view=view, delta=0, wr=True)
+        add("null-step+arc/" + view, [["r_1", "r", A, A], ["r_2", "r", B, C]], view=view, delta=0, wr=False)
+        add("null-step-on-used-complex/" + view, [["r_1", "r", A, A], ["r_2", "r", A, B]], view=view, delta=0, wr=False)
+        add("two-null-steps/" + view, [["r_1", "r", A, A], ["r_2", "q", [["A", 2]], [["A", 2]]]], view=view, delta=0, wr=True)
+        add("null-step-sum/" + view, [["r_1", "r", A + B, B + A], ["r_2", "r", C, A + B]], view=view, wr=False)
+        add("inflow-only/" + view, [["r_1", "r", [], A]], view=view, delta=0, wr=False)
+        add("outflow-only/" + view, [["r_1", "r", A, []]], view=view, delta=0, wr=False)
+        add("in-and-out/" + view, [["r_1", "r", [], A], ["r_2", "r", A, []]], view=view, delta=0, wr=True)
+        add("single-species-ladder/" + view, [["r_1", "r", A, [["A", 2]]], ["r_2", "r", [["A", 2]], [["A", 3]]], ["r_3", "r", [["A", 3]], A]],
+            view=view, delta=1, wr=True)
+        add("duplicate-reactions/" + view, [["r_1", "r", A, B], ["r_2", "r", A, B], ["q_1", "q", A, B]], view=view, delta=0, wr=False)
+        add("duplicate+reverse/" + view, [["r_1", "r", A + B, C], ["r_2", "r", A + B, C], ["r_3", "r", C, A + B], ["r_4", "q", C, B + A]],
+            view=view, delta=0, wr=True)
+        add("odd-labels/" + view, [["r_1", "r", [["0", 1]], [["False", 1]]], ["r_2", "r", [["False", 1]], [["None", 2]]],
+                                   ["0", "0", [["None", 2]], [["0", 1], [" ", 1]]]], view=view)
+        add("huge-coefficients/" + view, [["r_1", "r", [["A", 1000000]], [["B", 999999]]], ["r_2", "r", [["B", 999999]], [["A", 1000000]]],
+                                          ["r_3", "r", [["A", 10]], [["B", 11]]]], view=view, wr=False)
+        add("isolated+null/" + view, [["r_1", "r", A, A]], iso=["Z"], view=view, delta=0, wr=True)
+        add("catalyst/" + view, [["r_1", "r", A + B, A + C], ["r_2", "r", A + C, A + B]], view=view, delta=0, wr=True)
+    return out
+
+
+API_VARIANTS = ["pos", "kw", "nostoich", "nondeg", "staged", "lazy", "twice", "und", "multi"]
+
+
+def api_surface(rng, kind="api"):
+    """The same networks through every entry route (see _analyze_api in props/C19.py)."""
+    base = [t for t in G.textbook() if t["name"].split("/")[1] in
+            ("rev-A+B=C", "michaelis-menten", "edelstein", "futile-cycle", "horn-jackson", "open-0>A,0>2A", "autocat", "triangle")]
+    base += [d for d in degenerate(rng) if d["view"] == "hyper" and d["name"].split("/")[1] in
+             ("null-step+arc", "in-and-out", "duplicate+reverse", "catalyst")]
+    out = []
+    for b in base:
+        for v in API_VARIANTS:
+            for view in (("bip_int",) if v in ("und", "multi") else ("hyper", "bip_int")):
+                c = dict(b)
+                c.update(kind=kind, api=v, view=view, name="api/%s/%s/%s" % (v, view, b["name"].split("/", 1)[1]))
+                out.append(c)
+    return out
+
+
+def large(rng, sizes=(40, 100), kind="large"):
+    out = []
+    for n in sizes:
+        sp = names(n, "num")
+        sides = [([[sp[i], 1]], [[sp[i + 1], 1]]) for i in range(n - 1)]
+        sides += [([[sp[i + 1], 1]], [[sp[i], 1]]) for i in range(0, n - 1, 7)]
+        rxns = [["r_%d" % (k + 1), "r", l, r] for k, (l, r) in enumerate(sides)]
+        out.append(dict(kind=kind, name="large/chain-%d" % n, rxns=rxns, iso=[], view="hyper", delta=0, wr=False))
     return out
